@@ -447,6 +447,36 @@ static int replay_C13(const Args&)
    return fails;
 }
 
+// ---- C19: everything allocated on behalf of a Lexicon is returned when it is destroyed; nothing dangles (native sweep).
+// Global operator new/delete are replaced by counting versions that poison storage on release.
+#include <new>
+#include <cstring>
+namespace { long live_blocks = 0; bool counting = false; }
+void* operator new(std::size_t n) { auto* p = static_cast<std::size_t*>(std::malloc(n + 16)); if (!p) throw std::bad_alloc{}; p[0] = n; if (counting) ++live_blocks; return p + 2; }
+void operator delete(void* q) noexcept { if (!q) return; auto* p = static_cast<std::size_t*>(q) - 2; std::memset(q, 0xDD, p[0]); if (counting) --live_blocks; std::free(p); }
+void operator delete(void* q, std::size_t) noexcept { operator delete(q); }
+static int replay_C19(const Args&)
+{
+   auto scenario = [](const char* what, auto&& body) { counting = true; long before = live_blocks; body(); long after = live_blocks; counting = false;
+      if (after != before) { std::cout << "REPLAY-FAIL: " << what << ": " << (after - before) << " block(s) still allocated after destruction\n"; ++fails; } else std::cout << "replay-ok: " << what << "\n"; };
+   scenario("types, names, strings and a unit, then destruction", [] { impl::Lexicon lex; impl::Translation_unit u { lex };
+      for (int k = 0; k < 40; ++k) (void)lex.get_pointer(lex.get_array(lex.int_type(), *lex.make_literal(lex.int_type(), std::u8string(1 + k % 7, char8_t(u8'a' + k % 26)))));
+      (void)lex.get_identifier(u8"hello"); (void)u.global_region()->declare_var(lex.get_identifier(u8"x"), lex.int_type()); });
+   scenario("first interned word longer than 64 KiB", [] { impl::Lexicon lex; std::u8string w(70000, u8'w'); (void)lex.get_string(w); (void)lex.get_string(u8"short"); });
+   scenario("a word longer than one pool (1.1 MiB) between short ones", [] { impl::Lexicon lex; (void)lex.get_string(u8"a"); std::u8string w(1153433, u8'x'); auto& s = lex.get_string(w);
+      if (s.characters().size() != w.size() || s.characters()[w.size() - 1] != u8'x') { std::cout << "REPLAY-FAIL: long word content\n"; ++fails; } (void)lex.get_string(u8"b"); });
+   scenario("many words across several pools", [] { impl::Lexicon lex; for (int k = 0; k < 1300; ++k) { std::u8string w(1000, char8_t(u8'a' + k % 26)); w += std::u8string(1, char8_t(u8'A' + (k / 26) % 26)); w += std::u8string(1, char8_t(u8'A' + k / 676)); (void)lex.get_string(w); } });
+   scenario("module with units", [] { impl::Lexicon lex; impl::Module m { lex }; (void)m.make_unit(); (void)m.make_unit(); });
+   // nothing created for one Lexicon is handed out by a later one (storage is poisoned on release: a dangling node crashes or reads garbage)
+   { { impl::Lexicon a; impl::Translation_unit ua { a }; (void)a.get_identifier(u8"first"); }
+     impl::Lexicon b; impl::Translation_unit ub { b };
+     const Namespace& ns = ub.global_namespace();
+     auto* id = util::view<Identifier>(ns.name());
+     CLAUSE(id != nullptr && id->string().characters().size() == 0, "a second Lexicon created after the first was destroyed names its global namespace with a live empty identifier");
+   }
+   return fails;
+}
+
 // ---- C18: printing terminates and leaves the stream and the printer as it found them
 #include <sys/resource.h>
 static int replay_C18(const Args& a)
@@ -501,6 +531,7 @@ int main(int argc, char** argv)
       else if (f == "C01" || f == "C04") n = replay_C01(a);
       else if (f == "C07") n = replay_C07(a);
       else if (f == "C06") n = replay_C06(a);
+      else if (f == "C19") n = replay_C19(a);
       else if (f == "C13") n = replay_C13(a);
       else if (f == "C18") n = replay_C18(a);
       else if (f == "C12") n = replay_C12(a);
